@@ -504,7 +504,8 @@ def compileFile (files : String → Option String) : Nat → String → Option C
           | .define k v => some { s with defines := metaPut s.defines k v }
           | .category n md as => some { s with categories := s.categories ++ [(n, md)], assets := s.assets ++ as }
           | .associations l => some { s with associations := s.associations ++ l }) ({} : CSpec)
-        r.map (fun s => { s with categories := dedup s.categories, assets := dedup s.assets,
-                                 associations := dedup s.associations })
+        -- de-duplication with Python's `==` (order of meta entries irrelevant, numbers as floats): `Syntax.lean`
+        r.map (fun s => { s with categories := dedupBy catEqv s.categories, assets := dedupBy assetEqv s.assets,
+                                 associations := dedupBy assocEqv s.associations })
 
 end MalVerif.Mal
